@@ -124,6 +124,9 @@ type ProcObs struct {
 	// before main() had installed its handler (checks/c11.py repeats such a scenario with a long settle pause)
 	HandlerRaceSuspect bool `json:"handler_race_suspect,omitempty"`
 	PortsChanged       bool `json:"ports_changed,omitempty"`
+	// "address already in use": every attempt to start lost its port to another process, or the output of the run
+	// shows a bind error. Such a run is not an observation about the server (checks/c11.py: not judged).
+	BindFailure bool `json:"bind_failure,omitempty"`
 }
 
 type FileEntry struct {
@@ -348,10 +351,32 @@ func (s *serverSpec) args() []string {
 // startServer starts the binary and waits until it logged that its listeners are up and they accept connections.
 // On "address already in use" (another process took the port between probing and binding) it retries, with new
 // ports unless the ports are fixed (restart on the ports of the first run: the listeners must have been released).
-func startServer(s *serverSpec, obs *ProcObs) *proc {
+const bindErr = "address already in use"
+
+// portFree: nobody listens on addr at this moment.
+func portFree(addr string) bool {
+	l, err := gonet.Listen("tcp", addr)
+	if err != nil {
+		return false
+	}
+	l.Close()
+	return true
+}
+
+func startServer(s *serverSpec, obs *ProcObs, settle time.Duration) *proc {
+	// Other checks run on this machine at the same time and find their ports the same way (listen, close, hand the
+	// number to a child), so a port can be taken between probing and binding: by a foreign process, at the first
+	// start as well as at the restart, on the gRPC as well as on the REST port. The REST listener is bound in a
+	// goroutine of the server AFTER "REST server started" has been logged, and a bind error there is a panic of
+	// the child. Every such start is repeated on fresh ports (first attempt + 5 retries); it is never an observation.
+	wantOld := s.fixedPorts && s.grpcAddr != ""
 	for attempt := 1; attempt <= 6; attempt++ {
 		obs.Attempts = attempt
-		if !s.fixedPorts || s.grpcAddr == "" {
+		reuse := wantOld && attempt == 1 && portFree(s.grpcAddr) && (!s.rest || portFree(s.restAddr))
+		if !reuse {
+			if wantOld {
+				obs.PortsChanged = true // recorded, not judged: somebody else may have taken them
+			}
 			g, err := freeAddr()
 			if err != nil {
 				obs.StartErr = "no free port: " + err.Error()
@@ -368,14 +393,33 @@ func startServer(s *serverSpec, obs *ProcObs) *proc {
 			}
 		}
 		if s.sock != "" {
-			_ = os.Remove(s.sock + ".stale")
+			_ = os.Remove(s.sock) // left behind by a child of an earlier attempt that was killed
 		}
 		args := s.args()
 		obs.Args = args
+		// self-test of this retry logic (C11_SELFTEST_STEAL=grpc|rest|restart-grpc|restart-rest|always): the driver itself
+		// occupies the port during the first attempt (always: during every attempt), as a foreign process would
+		var thief gonet.Listener
+		if st := os.Getenv("C11_SELFTEST_STEAL"); st != "" && (attempt == 1 || st == "always") {
+			what := strings.TrimPrefix(st, "restart-")
+			if st == "always" || (strings.HasPrefix(st, "restart-") == wantOld) {
+				if what == "rest" && s.rest {
+					thief, _ = gonet.Listen("tcp", s.restAddr)
+				} else if what != "rest" {
+					thief, _ = gonet.Listen("tcp", s.grpcAddr)
+				}
+			}
+		}
 		p, err := startProc(s.bin, args, s.dir)
 		if err != nil {
 			obs.StartErr = "exec: " + err.Error()
+			if thief != nil {
+				thief.Close()
+			}
 			return nil
+		}
+		if thief != nil {
+			defer thief.Close()
 		}
 		ready := false
 		deadline := time.Now().Add(10 * time.Second)
@@ -384,6 +428,9 @@ func startServer(s *serverSpec, obs *ProcObs) *proc {
 				break
 			}
 			out := p.out.String()
+			if strings.Contains(out, bindErr) {
+				break
+			}
 			if strings.Contains(out, "gRPC server started. Listening on "+s.grpcAddr) &&
 				(!s.rest || strings.Contains(out, "REST server started. Listening on "+s.restAddr)) {
 				ok := dialOK(s.grpcAddr) && (!s.rest || dialOK(s.restAddr))
@@ -395,22 +442,27 @@ func startServer(s *serverSpec, obs *ProcObs) *proc {
 			time.Sleep(3 * time.Millisecond)
 		}
 		if ready {
-			obs.Started = true
-			obs.StartErr = ""
-			return p
+			// main() installs its signal handler after the listeners are announced, and the REST goroutine binds
+			// after its announcement: let both happen, then look again
+			time.Sleep(settle)
+			if !p.exited() && !strings.Contains(p.out.String(), bindErr) {
+				obs.Started = true
+				obs.StartErr = ""
+				obs.Bad = nil
+				obs.BindFailure = false
+				return p
+			}
 		}
 		out := p.out.String()
 		p.kill()
 		obs.StartErr = fmt.Sprintf("server did not come up (attempt %d): %s", attempt, tail(out, 1500))
-		obs.Bad = scanBad(out)
-		if strings.Contains(out, "address already in use") {
-			if s.fixedPorts && attempt >= 3 {
-				s.fixedPorts = false // give up on the old ports; recorded
-				obs.PortsChanged = true
-			}
-			time.Sleep(time.Duration(40*attempt) * time.Millisecond)
+		if strings.Contains(out, bindErr) {
+			obs.BindFailure = true
+			time.Sleep(time.Duration(20*attempt) * time.Millisecond)
 			continue
 		}
+		obs.BindFailure = false
+		obs.Bad = scanBad(out)
 		return nil
 	}
 	return nil
@@ -491,6 +543,9 @@ func finishObs(p *proc, signalAt time.Time, obs *ProcObs) {
 	out := p.out.String()
 	obs.Bad = scanBad(out)
 	obs.OutputTail = tail(out, 1200)
+	if strings.Contains(out, bindErr) {
+		obs.BindFailure = true
+	}
 	if obs.KilledBy != "" && obs.SignalSent != "" && !strings.Contains(out, "Shutting down") {
 		if st != nil {
 			if ws, ok := st.Sys().(syscall.WaitStatus); ok && ws.Signaled() && "SIG"+sigName(ws.Signal()) == obs.SignalSent {
@@ -877,12 +932,11 @@ func runScenario(sc Scenario, e env) (res Result) {
 	if settle <= 0 {
 		settle = 30 * time.Millisecond
 	}
-	p := startServer(spec, &res.Run1)
+	p := startServer(spec, &res.Run1, settle)
 	if p == nil {
 		return
 	}
 	procs = append(procs, p)
-	time.Sleep(settle)
 	var blocked []*Blocked
 	var blockedWG sync.WaitGroup
 	var bmu sync.Mutex
@@ -1150,10 +1204,9 @@ func runScenario(sc Scenario, e env) (res Result) {
 		if spec.sock != "" {
 			_ = os.Remove(spec.sock) // a crashed first run leaves it; the restart is judged on its own
 		}
-		p2 := startServer(spec, &res.Restart.Proc)
+		p2 := startServer(spec, &res.Restart.Proc, settle)
 		if p2 != nil {
 			procs = append(procs, p2)
-			time.Sleep(settle)
 			if spec.sock != "" {
 				l, err := ipcList(spec.sock)
 				res.Restart.IpcListing = l
@@ -1549,7 +1602,7 @@ func judge(res *Result, must, mustNot []Hold, limit time.Duration) {
 			v[k] = "pass"
 		}
 	}
-	if res.HarnessErr != "" || !res.Run1.Started {
+	if res.HarnessErr != "" || !res.Run1.Started || res.Run1.BindFailure || res.Restart.Proc.BindFailure {
 		for _, k := range []string{"exit0", "prompt", "nopanic", "blocked_error", "no_hang", "file_keeps", "file_drops_unlocked", "restart_up", "restart_lists", "restart_refuses", "restart_unlock"} {
 			v[k] = "n/a"
 		}
@@ -1666,11 +1719,7 @@ func judge(res *Result, must, mustNot []Hold, limit time.Duration) {
 			}
 		}
 	} else {
-		if rs.Proc.PortsChanged {
-			fail("restart_up", "the ports of the first run could not be bound again")
-		} else {
-			pass("restart_up")
-		}
+		pass("restart_up")
 		procClauses("second run", &rs.Proc)
 		if sc.StateFile {
 			if !sc.Ipc || len(must) == 0 {
